@@ -32,7 +32,7 @@ P("C01", "proof", native=True, kani={"timeout": "600s", "compile_clause": True},
   unbounded="native family rand_diff: 48 (thorough 240) RANDOM programs under join! / try_join! / join_spawn! / try_join_spawn! (1-3 branches x 1-3 steps, operators from the Option pool, plain or block operands, captures reading or reassigning names, let / let mut, failing initial values, optional handler) x 48 (400) sampled inputs against the staged reference, value and evaluation trace; all operands, all 22 operators: spelling -> Combinator -> constructor -> emitted tokens == documented call",
   bounded="operator adjacency / chain length (Kani programs)",
   not_decided="left-to-right composition for chains outside the enumerated family; that parse_until applies the table (C14)")
-P("C02", "proof", kani={"timeout": "600s", "compile_clause": True}, rac=["emit"],
+P("C02", "proof", kani={"timeout": "600s", "compile_clause": True}, rac=["emit", "structure"],
   unbounded="the ten wrapper operators; placeholder builder; replace preserves operator and restores all operands; the closure spliced at <<< is exactly |v| inner (wrap_last_step_stream); one branch of one step of generate_step (R15 lifted closure): for every action list the parser can produce the stack discipline holds, wrappers still open at the end of a step are closed by the loop (terminates with one frame); lemma_split_balance: the builder's per-step balance is the stack depth in every step",
   bounded="nesting programs (Kani)")
 P("C07", "proof", rac=["spawn_agree"],
